@@ -14,13 +14,27 @@ def run(tier, seed, ev):
                             ("remove", A.posts_remove), ("remove_range", A.posts_remove_range)):
             obs.append((f"API wrapper {name} agrees with the map", f"wrapper:{name}",
                         (lambda name, posts: lambda ex: A.check_finals(ex, name, "wrapper", ["C01"], posts, N=2))(name, posts)))
-        rc = mprop.run_m(PROP, tier, seed, ev, ex, obs,
-                         lambda ob: ix.REPLAY_INJ if getattr(ob, "kind", None) else [("src/lib.rs", "replay_api.rs", "verif_replay_api")],
-                         lambda ob: "replay_index_step" if getattr(ob, "kind", None) else "replay_api_wrappers")
+        # "the last committed bytes": a streamed put (new, write x n, finish - the real MIR) leaves in the staging file, and under
+        # the hash the index records, exactly the chunks in the order written, for every chunking (the same obligation as C18/C06)
+        for n in ((1, 2) if tier == "quick" else (1, 2, 3)):
+            obs.append((f"streamed put with {n} chunk(s) of any length stores exactly the bytes written, in order", "tx_write_streams",
+                        (lambda n: lambda ex: A.ob_tx_write(ex, n))(n)))
+
+        def inj(ob):
+            if "chunk_lens" in (ob.cex or {}):
+                return [("src/lib.rs", "replay_content.rs", "verif_replay_content")]
+            return ix.REPLAY_INJ if getattr(ob, "kind", None) else [("src/lib.rs", "replay_api.rs", "verif_replay_api")]
+
+        def test(ob):
+            if "chunk_lens" in (ob.cex or {}):
+                return "replay_content_identity"
+            return "replay_index_step" if getattr(ob, "kind", None) else "replay_api_wrappers"
+        rc = mprop.run_m(PROP, tier, seed, ev, ex, obs, inj, test)
         ix.fill_evidence(ev, U, HU, mir_s, ex)
         ev.functions += ["cas::CasInner::<K>::{get,get_size,get_reader,remove,remove_range,with_blob_item}",
                          "index::manager::{Index::read_state,IndexReadGuard::{get_item,contains_key,range}}"]
         ev.bounds["API wrappers"] = "key universe 2, hash universe 2, num_ops_per_wal=2, arbitrary in-memory state; range = any interval"
-        ev.outside += ["byte contents of blobs (C17/C18)", "iteration order of iter()/range() is the BTreeMap's own (std)"]
+        ev.bounds["streamed put"] = "1..2 (quick) / 1..3 (thorough) write calls, chunk lengths symbolic in 0..2^40"
+        ev.outside += ["byte VALUES of blobs (which bytes reach the file and the hash is decided, as abstract slices; range reads: C17)", "iteration order of iter()/range() is the BTreeMap's own (std)"]
         ev.extra["solver_queries"] = ex.queries
         return rc
